@@ -236,7 +236,9 @@ func (l *leader) checkConfigAction(t *task, config Config, status *replicationSt
 }
 
 func (l *leader) canChangeConfig() bool {
-	return l.configs.IsCommitted() && !l.transfer.inProgress()
+	// a new configuration entry needs the previous one committed and an
+	// entry of this leader's own term committed (see onChangeConfig)
+	return l.configs.IsCommitted() && l.commitIndex >= l.startIndex && !l.transfer.inProgress()
 }
 
 func (l *leader) onWaitForStableConfig(t waitForStableConfig) {
